@@ -390,15 +390,40 @@ class CircuitCompositeOperation(ICircuitCompositeOperation):
         result: bool = False
         # Only operations connected to the graph root can be without relation
         for node in self._circuit_graph.get_nodes_at(depth=1):
-            if node.operation.relation_link is self.relation_link:
+            if CircuitCompositeOperation._is_handed_link(node.operation.relation_link, self.relation_link):
                 continue
             if not node.operation.has_relation:
                 result = result or self.has_relation
-                node.operation.relation_link = self.relation_link
+                # Every head operation receives its own link instance: (sub-circuit) operations are compared by value,
+                # head sub-circuits sharing the link of self would be indistinguishable from each other (and from self).
+                node.operation.relation_link = CircuitCompositeOperation._instantiate_link(self.relation_link)
         for node in self._circuit_graph.get_node_iterator():
             if isinstance(node.operation, CircuitCompositeOperation):
                 result = node.operation._apply_relation_link_to_heads() or result
         return result
+
+    @staticmethod
+    def _instantiate_link(link: IRelationLink) -> IRelationLink:
+        """:return: New link instance with identical reference(s) and relation type."""
+        if isinstance(link, MultiRelationLink):
+            return MultiRelationLink(
+                _reference_nodes=link._reference_nodes,
+                _relation_to_group=link._relation_to_group,
+                _relation_type=link.relation_type,
+            )
+        return RelationLink(
+            _reference_node=link.reference_node,
+            _relation_type=link.relation_type,
+        )
+
+    @staticmethod
+    def _is_handed_link(link: IRelationLink, parent_link: IRelationLink) -> bool:
+        """:return: Boolean, whether link is an instance of parent link (without evaluating any start time)."""
+        if isinstance(link, MultiRelationLink) and isinstance(parent_link, MultiRelationLink):
+            return link._reference_nodes is parent_link._reference_nodes
+        if isinstance(link, RelationLink) and isinstance(parent_link, RelationLink):
+            return link._reference_node is not None and link._reference_node is parent_link._reference_node and link.relation_type == parent_link.relation_type
+        return False
 
     def _collect_decomposed_operations(self) -> List[ICircuitOperation]:
         """:return: Array-like of decomposed operations (after relation links are handed to head operations)."""
